@@ -35,7 +35,7 @@ pub fn reference_groups(ops: &[DiffOp], n: usize) -> Vec<Vec<DiffOp>> {
         let mut b = a;
         while b + 1 < changes.len() {
             let sep: usize = (changes[b] + 1..changes[b + 1]).map(|i| ops[i].old_range().len()).sum();
-            if sep > 2 * n {
+            if sep > n.saturating_mul(2) {
                 break;
             }
             b += 1;
@@ -80,8 +80,8 @@ pub fn judge_groups(ops: &[DiffOp], n: usize, groups: &[Vec<DiffOp>]) -> Result<
                 if edge && *len > n {
                     return Err(format!("group {}: edge context {:?} longer than n={}", gi, op, n));
                 }
-                if !edge && *len > 2 * n {
-                    return Err(format!("group {}: interior equal run {:?} longer than 2n={}", gi, op, 2 * n));
+                if !edge && *len > n.saturating_mul(2) {
+                    return Err(format!("group {}: interior equal run {:?} longer than 2n={}", gi, op, n.saturating_mul(2)));
                 }
             }
         }
@@ -111,7 +111,7 @@ fn check(case: &Case, obs: &mut Obs) -> Verdict {
                 return Verdict::Fail(m);
             }
             let changes = ops.iter().filter(|o| !is_eq(o)).count();
-            let special = ops.iter().any(|o| matches!(o, DiffOp::Equal { len, .. } if *len == *n || *len == 2 * n || *len == 2 * n + 1));
+            let special = ops.iter().any(|o| matches!(o, DiffOp::Equal { len, .. } if *len == *n || *len == n.saturating_mul(2) || *len == n.saturating_mul(2).saturating_add(1)));
             obs.nontrivial = changes >= 2 && special;
             obs.class("synthetic op list");
             obs.class_if(*n == 0, "n = 0");
@@ -209,7 +209,8 @@ fn build_ops(start: (usize, usize), lead: Option<usize>, segs: &[(u8, usize, usi
 }
 
 fn eq_len(sel: u8, raw: usize, n: usize) -> usize {
-    let n = n.min(50);
+    // run lengths around n, 2n, ... also for huge n (op lists need no backing sequences)
+    let n = n.min(1 << 40);
     (match sel % 7 {
         0 => n,
         1 => 2 * n,
@@ -223,7 +224,13 @@ fn eq_len(sel: u8, raw: usize, n: usize) -> usize {
 }
 
 fn radius() -> impl Strategy<Value = usize> {
-    prop_oneof![8 => 0usize..6, 1 => Just(10usize), 1 => Just(1000usize)]
+    prop_oneof![
+        16 => 0usize..6,
+        2 => Just(10usize),
+        2 => Just(1000usize),
+        // "all the context there is": radii near the top of the integer range
+        1 => prop_oneof![Just(usize::MAX), Just(usize::MAX / 2), Just(usize::MAX / 2 + 1), Just(1usize << 63), Just((1usize << 32) + 5), Just(u32::MAX as usize)],
+    ]
 }
 
 fn strat(tier: Tier) -> BoxedStrategy<Case> {
